@@ -178,6 +178,7 @@ def streamStep (s : StreamDrv) (line : String) : StreamDrv × String :=
       | some (d, valid) =>
         ({ (s.setDb d) with sw := none }, s!"ok next={d.nextTs} valid={boolStr valid}")
   | ["sw-cancel"] => ({ s with sw := none }, "ok")
+  | "cmp-restore" :: _ => (s, "ok")
   | _ =>
     let (d, o) := mvccStep s.db line
     (s.setDb d, o)
